@@ -320,7 +320,9 @@ func Generate(rng *rand.Rand, i int, thorough bool) *p2prig.Scenario {
 		if rng.Intn(3) == 0 {
 			s.InitialStore, s.PrefixLen = "prefix", 1+rng.Intn(s.HonestLen/3)
 		}
-		s.Nodes = []p2prig.NodeSpec{{Kind: "honest", Cap: []int{5, 7, 12}[rng.Intn(3)], DisconnectAtMsg: 4 + rng.Intn(5)}}
+		// (the node restarts: every connection the service has to it goes away at that moment, so nothing but a re-dialled
+		// connection can carry the sync on)
+		s.Nodes = []p2prig.NodeSpec{{Kind: "honest", Cap: []int{5, 7, 12}[rng.Intn(3)], DisconnectAtMsg: 4 + rng.Intn(5), RestartOnDrop: true}}
 		s.DropNode0AfterSync, s.SlowConvergeWaitSec = false, 0
 		s.WaitReconnect = true
 		for k := range s.Announce {
